@@ -14,6 +14,8 @@ import (
 	"sort"
 	"strconv"
 	"strings"
+	"sync"
+	"sync/atomic"
 	"testing"
 	"time"
 
@@ -52,19 +54,20 @@ func (s *settingsProvider) Settings() settings.Settings {
 }
 
 type world struct {
-	t      *testing.T
-	store  *sqlite.Store
-	fs     *failStore
-	sp     *settingsProvider
-	am     *accounts.AccountManager
-	keys   [maxAccts]types.PublicKey
-	revs   []contracts.SignedRevision // v1 contracts
-	v2     []contracts.V2Contract
-	cidx1  map[types.FileContractID]int
-	cidx2  map[types.FileContractID]int
-	aidx   map[types.PublicKey]int
-	bud    []*accounts.Budget
-	height uint64
+	t       *testing.T
+	store   *sqlite.Store
+	fs      *failStore
+	sp      *settingsProvider
+	am      *accounts.AccountManager
+	keys    [maxAccts]types.PublicKey
+	revs    []contracts.SignedRevision // v1 contracts
+	v2      []contracts.V2Contract
+	cidx1   map[types.FileContractID]int
+	cidx2   map[types.FileContractID]int
+	aidx    map[types.PublicKey]int
+	bud     []*accounts.Budget
+	budAcct map[int]int
+	height  uint64
 }
 
 func seedKey(n uint64) types.PrivateKey {
@@ -81,7 +84,7 @@ func hashN(tag byte, n int) (h types.Hash256) {
 
 func newWorld(t *testing.T, n1, n2 int) *world {
 	st := vhlib.OpenStore(t, t.TempDir())
-	w := &world{t: t, store: st, cidx1: map[types.FileContractID]int{}, cidx2: map[types.FileContractID]int{}, aidx: map[types.PublicKey]int{}, height: 100}
+	w := &world{t: t, store: st, cidx1: map[types.FileContractID]int{}, cidx2: map[types.FileContractID]int{}, aidx: map[types.PublicKey]int{}, budAcct: map[int]int{}, height: 100}
 	w.fs = &failStore{Store: st}
 	w.sp = &settingsProvider{maxBalance: types.NewCurrency64(1000)}
 	w.am = accounts.NewManager(w.fs, w.sp)
@@ -308,6 +311,7 @@ func (w *world) doBudget(tr *vhlib.Trace, a int, amt uint64) {
 	case panicked:
 		res = "res=panic:" + msg
 	case err == nil:
+		w.budAcct[len(w.bud)] = a
 		w.bud = append(w.bud, b)
 	case errors.Is(err, accounts.ErrInsufficientFunds):
 		res = "res=insufficient"
@@ -368,6 +372,28 @@ func (w *world) doRefund(tr *vhlib.Trace, i int, u usage6) {
 	w.emit(tr, op, res+" remaining="+remaining(b))
 }
 
+// srcStatuses counts, for the evidence, the status of every contract that currently funds account a.
+func (w *world) srcStatuses(tr *vhlib.Trace, a int, v2 bool) {
+	rows, err := w.store.VerifFundingRows(v2)
+	if err != nil {
+		return
+	}
+	for _, r := range rows {
+		if r.Account != w.keys[a] || r.Amount.IsZero() {
+			continue
+		}
+		u, err := w.store.VerifContractUsageColumns(v2, r.ContractID)
+		if err != nil {
+			continue
+		}
+		if v2 {
+			tr.Count("debit_source_status_v2:" + u.Status)
+		} else {
+			tr.Count("debit_source_status_v1:" + u.Status)
+		}
+	}
+}
+
 func (w *world) doCommit(tr *vhlib.Trace, i int, fail bool) {
 	op := fmt.Sprintf("commit b=%d fail=%d", i, vhlib.B01(fail))
 	b := w.budgetAt(i)
@@ -376,6 +402,11 @@ func (w *world) doCommit(tr *vhlib.Trace, i int, fail bool) {
 		return
 	}
 	w.fs.failDebit = fail
+	if !fail {
+		if ai, ok := w.budAcct[i]; ok {
+			w.srcStatuses(tr, ai, false)
+		}
+	}
 	var err error
 	panicked, msg := vhlib.Try(func() { err = b.Commit() })
 	w.fs.failDebit = false
@@ -411,6 +442,84 @@ func (w *world) doRollback(tr *vhlib.Trace, i int) {
 		res = "res=err"
 	}
 	w.emit(tr, op, res)
+}
+
+// doPar lets k goroutines reserve amt on the same account at the same time and, after a
+// barrier, lets every granted budget spend u and commit (or roll back) at the same time.
+// The outcome counts do not depend on the schedule if (and only if) the manager serialises
+// the operations; the driver replays the round as one sequential order.
+func (w *world) doPar(tr *vhlib.Trace, a, k int, amt uint64, u usage6, commit bool) (stillOpen int) {
+	op := fmt.Sprintf("par a=%d k=%d amt=%d u=%s commit=%d", a, k, amt, u, vhlib.B01(commit))
+	if k < 0 || k > 8 {
+		k = 0
+	}
+	buds := make([]*accounts.Budget, k)
+	var panics int64
+	run := func(n int, fn func(j int)) {
+		var wg sync.WaitGroup
+		start := make(chan struct{})
+		for j := 0; j < n; j++ {
+			wg.Add(1)
+			go func(j int) {
+				defer wg.Done()
+				defer func() {
+					if r := recover(); r != nil {
+						atomic.AddInt64(&panics, 1)
+					}
+				}()
+				<-start
+				fn(j)
+			}(j)
+		}
+		close(start)
+		wg.Wait()
+	}
+	run(k, func(j int) {
+		b, err := w.am.Budget(rhp3.Account(w.keys[a]), cur(amt))
+		if err == nil {
+			buds[j] = b
+		}
+	})
+	var granted []*accounts.Budget
+	for _, b := range buds {
+		if b != nil {
+			granted = append(granted, b)
+		}
+	}
+	var spent, cerr int64
+	failed := make([]bool, len(granted))
+	run(len(granted), func(j int) {
+		b := granted[j]
+		if err := b.Spend(u.v3()); err == nil {
+			atomic.AddInt64(&spent, 1)
+		}
+		if commit {
+			if err := b.Commit(); err != nil {
+				atomic.AddInt64(&cerr, 1)
+				failed[j] = true
+			}
+		} else if err := b.Rollback(); err != nil {
+			atomic.AddInt64(&cerr, 1)
+			failed[j] = true
+		}
+	})
+	// the budgets are interchangeable (same account, maximum and spending); which of them a
+	// refusing store hit depends on the schedule, so they are numbered closed ones first
+	for pass := 0; pass < 2; pass++ {
+		for j, b := range granted {
+			if failed[j] == (pass == 1) {
+				w.budAcct[len(w.bud)] = a
+				w.bud = append(w.bud, b)
+			}
+		}
+	}
+	stillOpen = int(cerr)
+	res := "res=ok"
+	if panics > 0 {
+		res = fmt.Sprintf("res=panic:%d_goroutines", panics)
+	}
+	w.emit(tr, op, fmt.Sprintf("%s granted=%d spent=%d cerr=%d nbud=%d", res, len(granted), spent, cerr, len(w.bud)))
+	return
 }
 
 type dep struct {
@@ -454,6 +563,7 @@ func (w *world) doRHP4Credit(tr *vhlib.Trace, c int, deps []dep, u usage6) {
 
 func (w *world) doRHP4Debit(tr *vhlib.Trace, a int, u usage6) {
 	op := fmt.Sprintf("rhp4debit a=%d u=%s", a, u)
+	w.srcStatuses(tr, a, true)
 	var err error
 	panicked, msg := vhlib.Try(func() { err = w.store.RHP4DebitAccount(proto4.Account(w.keys[a]), u.v4()) })
 	res := "res=ok"
@@ -531,20 +641,20 @@ func (w *world) doStatus(tr *vhlib.Trace, v, c int, to string) {
 // ---------------------------------------------------------------- generator
 
 type gen struct {
-	w     *world
-	r     *vhlib.Rand
-	tr    *vhlib.Trace
-	nA    int
-	n1    int
-	n2    int
-	mode  string
-	open  map[int]bool // budgets the generator believes open
-	bacct map[int]int
-	bmax  map[int]uint64
+	w      *world
+	r      *vhlib.Rand
+	tr     *vhlib.Trace
+	nA     int
+	n1     int
+	n2     int
+	mode   string
+	open   map[int]bool // budgets the generator believes open
+	bacct  map[int]int
+	bmax   map[int]uint64
 	bspent map[int]uint64
 	bused  map[int]usage6
-	st1   []string
-	st2   []string
+	st1    []string
+	st2    []string
 }
 
 func (g *gen) small() uint64 {
@@ -670,7 +780,7 @@ func (g *gen) step() {
 	}
 	var tbl []wk
 	if use3 {
-		tbl = append(tbl, wk{"credit", 20}, wk{"budget", 14}, wk{"spend", 16}, wk{"refund", 5}, wk{"commit", 12}, wk{"rollback", 7})
+		tbl = append(tbl, wk{"credit", 20}, wk{"budget", 14}, wk{"spend", 16}, wk{"refund", 5}, wk{"commit", 12}, wk{"rollback", 7}, wk{"par", 4})
 	}
 	if use4 {
 		tbl = append(tbl, wk{"rhp4credit", 10}, wk{"rhp4debit", 12})
@@ -813,6 +923,38 @@ func (g *gen) step() {
 		i := g.pickBudget(r.Chance(9, 10))
 		w.doRollback(g.tr, i)
 		g.open[i] = false
+	case "par":
+		k := 2 + r.Intn(3)
+		mb := g.mgrBal(a)
+		var amt uint64
+		switch r.Intn(5) {
+		case 0:
+			amt = mb / uint64(k)
+		case 1:
+			amt = mb/uint64(k) + 1
+		case 2:
+			amt = mb/2 + 1
+		case 3:
+			amt = mb
+		default:
+			amt = g.small()
+		}
+		var total uint64
+		if amt > 0 {
+			total = uint64(r.Intn(int(amt) + 1))
+		}
+		if r.Chance(1, 8) {
+			total = amt + 1
+		}
+		before := len(w.bud)
+		pu := g.usage(total, g.shuffledCats(6))
+		stillOpen := w.doPar(g.tr, a, k, amt, pu, r.Chance(2, 3))
+		for i := before; i < len(w.bud); i++ {
+			g.open[i], g.bacct[i], g.bmax[i] = i >= len(w.bud)-stillOpen, a, amt
+			if pu.total3() <= amt {
+				g.bspent[i], g.bused[i] = pu.total3(), pu
+			}
+		}
 	case "rhp4credit":
 		c := r.Intn(g.n2)
 		if r.Chance(1, 40) {
@@ -967,6 +1109,8 @@ func replay(t *testing.T, tr *vhlib.Trace, ops []vhlib.ParsedLine) {
 			w.doCommit(tr, op.Int("b"), op.U64("fail") == 1)
 		case "rollback":
 			w.doRollback(tr, op.Int("b"))
+		case "par":
+			w.doPar(tr, clampA(op.Int("a")), op.Int("k"), op.U64("amt"), parseUsage(op.U64List("u")), op.U64("commit") == 1)
 		case "rhp4credit":
 			deps := parseDeps(op.List("deps"))
 			for i := range deps {
